@@ -161,7 +161,9 @@ func (s *Sched) Spawn(name string, fn func(*Task)) *Task {
 //go:norace
 func appendTask(ts []*Task, t *Task) []*Task {
 	n := make([]*Task, len(ts)+1)
-	copy(n, ts)
+	for i := range ts {
+		n[i] = ts[i]
+	}
 	n[len(ts)] = t
 	return n
 }
@@ -450,7 +452,9 @@ func (s *Sched) record(id int) {
 	}
 	if len(s.rec) == cap(s.rec) {
 		nr := make([]Run, len(s.rec), 2*cap(s.rec)+16)
-		copy(nr, s.rec)
+		for i := range s.rec {
+			nr[i] = s.rec[i]
+		}
 		s.rec = nr
 	}
 	s.rec = s.rec[:len(s.rec)+1]
@@ -500,7 +504,9 @@ func (s *Sched) emit(task int, kind uint8, a, b uint64, str string) uint64 {
 	if s.KeepLog {
 		if len(s.log) == cap(s.log) {
 			nl := make([]Event, len(s.log), 2*cap(s.log)+64)
-			copy(nl, s.log)
+			for i := range s.log {
+				nl[i] = s.log[i]
+			}
 			s.log = nl
 		}
 		s.log = s.log[:len(s.log)+1]
@@ -544,7 +550,9 @@ func (s *Sched) Overrun() bool { return s.overrun }
 //go:norace
 func (s *Sched) Recorded() []Run {
 	r := make([]Run, len(s.rec))
-	copy(r, s.rec)
+	for i := range s.rec {
+		r[i] = s.rec[i]
+	}
 	return r
 }
 
